@@ -200,6 +200,9 @@ func storeWriteOrder(c *engine.Ctx, idUpdate, idStatus string) {
 		{idStatus, "configurationStore.UpdateStatus", "@C.Status.Applied.Values"},
 	} {
 		root := x.root
+		if x.id == "" {
+			continue
+		}
 		c.Guard(engine.Guard{ID: x.id, Pkg: pkgStoreCfgV2, Min: 1, PathsOverride: sp,
 			Sel:     engine.Sel{Call: "map.Map.Update", Filter: func(p *engine.Path, i int) bool { return strings.HasSuffix(p.Root.Name(), root) }},
 			Require: x.vals + " == nil || #ok(" + storeFn + ")",
